@@ -36,12 +36,15 @@ theorem relabel_injective (label : β → List Nat) (hinj : Function.Injective l
   Proofs.C01.relabel_injective label hinj
 
 /-- With the ASCII option, every code point written is below 0x80 (so every byte is), provided the
-    blank-node labels and language tags are ASCII (the default labeller's are; `langOK` tags are). -/
+    blank-node labels and language tags are ASCII (the default labeller's are; `langOK` tags are)
+    and every rune of the input is a code point (`hrange`: `≤ 0x10FFFF`, which every Go string
+    conversion guarantees; the regenerated escape tables say nothing beyond that bound). -/
 theorem ascii_output (T : Tables) (hA : TablesAscii T) (label : β → List Nat)
     (hlab : ∀ b, ∀ c ∈ label b, c < 0x80) (quads : Bool) (qs : List (Quad β))
+    (hrange : ∀ q ∈ qs, QuadInRange q)
     (hlang : ∀ q ∈ qs, ∀ l d t, q.o = .lit l d (some t) → ∀ c ∈ t, c < 0x80) :
     ∀ c ∈ encodeDoc T true label quads qs, c < 0x80 :=
-  Proofs.C01.ascii_output T hA label hlab quads qs hlang
+  Proofs.C01.ascii_output T hA label hlab quads qs hrange hlang
 
 /-- Language tags accepted by `langOK` are ASCII. -/
 theorem langOK_ascii (t : List Nat) (h : langOK t = true) : ∀ c ∈ t, c < 0x80 :=
